@@ -38,6 +38,7 @@ def plan(tier, seed):
         k = 43
         for i in range(k):
             shards.append({"kind": "packing", "tier": tier, "seed": seed, "mtus": allm[i::k], "shard": i, "ticks": 220, "subprocess": True})
+    shards.append({"kind": "interleaved", "tier": tier, "seed": seed, "shard": 0, "ticks": 1500 if tier == "quick" else 12000, "subprocess": True})
     return shards
 
 
@@ -149,8 +150,26 @@ def run_packing(cfg, out):
             maxp = P.MAX_PAYLOAD_SIZE
             staged = None            # (tick, side, k): second half of a resend+fresh flood
             normal = dict(w.net.policy)
+            import array
             for t in range(cfg["ticks"]):
                 mode = r.random()
+                if t % 40 == 7:
+                    # payloads that are not bytes: refused with TypeError - or, if a version accepts them, handled like bytes of the
+                    # same content (the wire monitors judge what comes out)
+                    for side in ("client", "server"):
+                        ep = (c.udp if side == "client" else run.sconn(c))
+                        if ep is None:
+                            continue
+                        for obj in (bytearray(b"x" * 700), memoryview(b"y" * 900), memoryview(array.array("I", range(340))), "text", 5, None, [1, 2]):
+                            try:
+                                ep.send(obj)
+                                run.c.inc("non_bytes_payload_accepted")
+                                # followed by something that only fits next to it if its size is miscounted
+                                ep.send(bytes(1000))
+                            except TypeError:
+                                run.c.inc("non_bytes_payload_refused")
+                            except Exception as e:
+                                run.report("C09", "send-raised-other", "send(%s) raised %r instead of TypeError" % (type(obj).__name__, e))
                 if staged is None and mode >= 0.7 and mode < 0.78:
                     # resend + fresh: k1 empty BEST_EFFORT messages go out into an outage (nothing is acked); once their
                     # resend is overdue the application adds k2 fresh empty messages in one tick: the datagram built then is
@@ -224,9 +243,81 @@ def run_packing(cfg, out):
     return total
 
 
+def run_interleaved(cfg, out):
+    """another thread calls send() while the connection builds a packet.  The monitor plays that thread: a sys.monitoring LINE
+    event inside ConnectionBase._build_packet_impl - a different line of the function at every invocation - runs one whole
+    send() on the connection being built (a thread switch at a line boundary, the other thread's send() running to completion,
+    is one of the schedules threads can produce).  Nothing that send() accepted may be lost."""
+    import sys
+    r = rng("C09", cfg["seed"], "interleaved")
+    total = 0
+    with T.Run(r, mtu=1500, dt=1 / 60) as run:
+        w = run.world
+        w.net.heal(0.004)
+        c = w.connect_client()
+        mon = sys.monitoring
+        TOOL = 3
+        code = run.tap._orig["build"].__code__
+        state = {"conn": None, "line_no": 0, "target": 0, "fired": False, "builds": 0, "injected": 0, "max_lines": 1, "busy": False}
+        orig_build = run.C.ConnectionBase._build_packet_impl
+
+        def build(conn, *a, **kw):
+            if state["busy"]:
+                return orig_build(conn, *a, **kw)
+            state.update(conn=conn, line_no=0, fired=False, busy=True)
+            state["target"] = state["builds"] % (state["max_lines"] + 1)
+            state["builds"] += 1
+            try:
+                return orig_build(conn, *a, **kw)
+            finally:
+                state["max_lines"] = max(state["max_lines"], state["line_no"])
+                state["busy"] = False
+                state["conn"] = None
+        run.C.ConnectionBase._build_packet_impl = build
+
+        def on_line(co, line):
+            conn = state["conn"]
+            if conn is None:
+                return
+            state["line_no"] += 1
+            if not state["fired"] and state["line_no"] >= state["target"]:
+                state["fired"] = True
+                side = "client" if conn is c.udp.conn else "server"
+                ep = c if side == "client" else conn
+                if getattr(conn.status, "value", 0) == 2:
+                    run.app.send(ep, side, r.choice([0, 11, 40, 700]), r.choice([0, 0, 1, -1]), with_cb=False)
+                    state["injected"] += 1
+        mon.use_tool_id(TOOL, "verif-c09-interleave")
+        mon.register_callback(TOOL, mon.events.LINE, on_line)
+        mon.set_local_events(TOOL, code, mon.events.LINE)
+        try:
+            for t in range(cfg["ticks"]):
+                # a backlog of varied messages so that the builder has something to scan
+                for side in ("client", "server"):
+                    ep = c if side == "client" else run.sconn(c)
+                    if ep is not None and len((c.udp.conn if side == "client" else ep).outgoing_messages) < 40:
+                        for _ in range(r.randint(0, 5)):
+                            run.app.send(ep, side, r.choice([0, 5, 30, 400, 900, 1400]), r.choice([0, 1, -1]), with_cb=False)
+                w.step()
+        finally:
+            mon.set_local_events(TOOL, code, 0)
+            mon.register_callback(TOOL, mon.events.LINE, None)
+            mon.free_tool_id(TOOL)
+            run.C.ConnectionBase._build_packet_impl = orig_build
+        out["counters"].inc("interleaved_sends_injected", state["injected"])
+        out["counters"].inc("builder_lines_covered_by_injection", state["max_lines"])
+        healed = run.settle([c], min_ticks=30, horizon=40.0)
+        T.final_checks(run, [c], healed, horizon=40.0)
+        total += run.c.get("app_sends", 0)
+        out["distinct"].add(h64("interleaved", state["max_lines"]))
+        out["samples"].append({"scenario": "interleaved-producer", "builds": state["builds"], "sends_injected_mid_build": state["injected"], "lines_of_the_builder_reached": state["max_lines"]})
+        c05.collect(run, out, PROPS, {"kind": "interleaved"})
+    return total
+
+
 def run_shard(cfg):
     out = {"violations": [], "counters": Counter(), "samples": [], "distinct": set()}
-    n = run_codec(cfg, out) if cfg["kind"] == "codec" else run_packing(cfg, out)
+    n = run_codec(cfg, out) if cfg["kind"] == "codec" else run_interleaved(cfg, out) if cfg["kind"] == "interleaved" else run_packing(cfg, out)
     return {"evaluations": n, "distinct": sorted(out["distinct"]), "counters": dict(out["counters"]),
             "violations": out["violations"][:60], "samples": out["samples"]}
 
@@ -235,7 +326,7 @@ def finish(tier, seed, results):
     m = merge(results)
     inconclusive = []
     need(m["counters"], ["codec_packets", "codec_form_gcm", "codec_form_crc", "codec_roundtrips_real", "codec_roundtrips_independent",
-                         "mtus_run", "wire_checked", "maximality_checked", "roundtrips_checked", "tiny_floods", "resend_plus_fresh_floods", "mtu_changes_on_open_connections", "conservation_checked",
+                         "mtus_run", "wire_checked", "maximality_checked", "roundtrips_checked", "tiny_floods", "resend_plus_fresh_floods", "mtu_changes_on_open_connections", "non_bytes_payload_refused", "interleaved_sends_injected", "conservation_checked",
                          "packets_built"], inconclusive)
     cov = {
         "evaluations": m["evaluations"],
